@@ -307,6 +307,26 @@ def motif_out_of_band_flush(rng):
     return spec
 
 
+def motif_cache_hit(rng):
+    """A task yields, together, a request that is answered when it is made (a local cache hit; its
+    batch stays pending) and tasks that finish without a request; it then issues a real request.
+    Another task is blocked meanwhile. Everything that can be issued must travel in one flush."""
+    hit = rng.choice([0, 3])
+    first = [["item", 0, hit], ["call", 3, []]]
+    if rng.random() < 0.5:
+        first.append(["call", 3, []])
+    rng.shuffle(first)
+    a = [["y", [rng.choice(["t", "l"]), first]], ["y", ["item", 0, rng.choice([1, 2, 4])]]]
+    b = [["y", ["item", 0, rng.choice([1, 2, 5])]]]
+    calls = [["call", 1, []], ["call", 2, []]]
+    rng.shuffle(calls)
+    templates = [{"kind": "fn", "steps": [["y", [rng.choice(["t", "l"]), calls]]]}, {"kind": "fn", "steps": a},
+                 {"kind": "fn", "steps": b}, {"kind": "fn", "steps": []}]
+    return {"templates": templates, "root": {"tmpl": 0, "conv": rng.choice(["call", "value", "wrapped"])},
+            "kinds": 1, "svs": 1, "yield_only": True, "reentry": False, "cache_hits": True,
+            "faults": {"items": {}, "flushes": {}, "ctx": {}}, "prio": gen_prio(rng, 1)}
+
+
 def motif_wide(rng, kind):
     """One yield of more than a thousand tasks that each wait for a request of the same batch
     kind (a batch of 1000+ items), inside a context / NonAsyncContext / plain."""
